@@ -40,7 +40,7 @@ func genC20Pure(t *simrt.Tape) c20Pure {
 	}
 	n := 1 + t.Choose(6)
 	for i := 0; i < n; i++ {
-		p.Fns = append(p.Fns, t.Choose(6))
+		p.Fns = append(p.Fns, t.Choose(8)) // (6 and 7 return nothing at all: nil / an empty tuple)
 	}
 	p.Split = t.Choose(n + 1)
 	p.Iface = t.Bool(1, 3)
@@ -92,6 +92,8 @@ func c20Family() []c20sfn {
 			}
 			return []string{"f[" + a[0] + "]"}
 		},
+		func(a ...string) []string { return nil },        // drops everything; what follows still runs, on an empty tuple
+		func(a ...string) []string { return []string{} }, // the same with an empty, non-nil result
 	}
 }
 
